@@ -18,6 +18,16 @@ def _unk(x: Any) -> Any:
     return x.v if isinstance(x, _K) else x
 
 
+def _is_map_item(l: Any, uid: int, dep: Any) -> bool:
+    """Is the object with this uid `map.get(dep.name)` / `map[dep.name]` of a dict created in the function?"""
+    for o in l.run.elem_memo.values():
+        if isinstance(o, SObj) and o.uid == uid and o.meta.get("item_of") is not None and isinstance(o.meta["item_of"][0], SDict):
+            k = o.meta["item_of"][1]
+            ao = k.meta.get("attr_of") if isinstance(k, SObj) else None
+            return ao is not None and ao[0] is dep and ao[1] == "name"
+    return False
+
+
 def _attr_of(o: Any) -> Optional[Tuple[Any, str]]:
     if isinstance(o, SObj):
         return o.meta.get("attr_of")
@@ -62,6 +72,8 @@ def resolve_table(ctx: Ctx, I: Interp) -> None:
                 ctx.check(ao is not None and ao[0] is dep and ao[1] == "name", "C10.key", "the seen-test is keyed by dep.name", RES,
                           f"{short(key)} in <map>", f"de-duplication is keyed by {short(key)}, not by the dependency's name")
                 seen = bool(val)
+            elif isinstance(atom, tuple) and atom[0] == "is" and atom[2] == "NONE" and _is_map_item(l, atom[1], dep):
+                seen = not str(val).startswith("is None")      # `cur = map.get(dep.name)` ... `cur is None`
             elif isinstance(atom, tuple) and atom[0] == "cmp":
                 cmpa = (atom, val)
             elif isinstance(atom, tuple) and atom[0] in ("isinstance", "kind", "kindgroup") :
@@ -135,6 +147,8 @@ def resolve_table(ctx: Ctx, I: Interp) -> None:
         v = l.value
         src = v.__dict__.get("of") if isinstance(v, SOpaque) and v.__dict__.get("pytype") == "list" else \
             (v.meta.get("copy_of") if isinstance(v, SObj) and v.meta.get("list_ctor") == "list" else None)
+        if src is None and isinstance(v, SList) and v.mode == "concrete" and len(v.items) == 1 and isinstance(v.items[0], SSplat):
+            src = v.items[0].value      # [*map.values()]
         ok = isinstance(src, SOpaque) and (src.__dict__.get("iter_descr") or (None,))[0] == "values" \
             and isinstance(src.__dict__["iter_descr"][1], SDict)
         ctx.check(ok, "C10.result", "result is list(<name->dependency dict>.values()) (insertion order, no re-sorting)", RES,
@@ -180,7 +194,7 @@ def collection_table(ctx: Ctx, I: Interp) -> None:
                           witness="TagList(a, b, a).get_dependencies(dedup=False)")
             elif k == "TAG":
                 calls = [e for e in eff if e.kind == "call" and getattr(e.target, "qual", "") == "Tag.get_dependencies"]
-                ok = len(muts) == 1 and muts[0].key == "extend" and len(calls) == 1 and calls[0].key is x
+                ok = len(muts) == 1 and muts[0].key in ("extend", "__iadd__") and len(calls) == 1 and calls[0].key is x
                 kw = (calls[0].extra or {}).get("kwargs", {}) if calls else {}
                 args = calls[0].value if calls else []
                 nodedup = (kw.get("dedup") is False) or (args and args[0] is False)
